@@ -143,6 +143,8 @@ def verify_function(ex, con, prop=None):
                                                 kind="ensures")))
                 if con.exact_raises:
                     for (excname, cond, _) in raise_specs:
+                        if cond is None:
+                            continue   # no closed-form condition at this level: see ensures_exc and the lemma layer
                         obligs.append(_ob(ex, "%s::raises-exact:%s%s" % (base, excname, pid), s, tm.not_(cond), prop,
                                           mterms, "normal return only when %s is not due" % excname,
                                           meta=dict(function=con.qual, file=con.file, variant=variant,
@@ -155,6 +157,8 @@ def verify_function(ex, con, prop=None):
                                       "an exception the contract does not list (%s) is unreachable" % mro[0],
                                       meta=dict(function=con.qual, file=con.file, variant=variant,
                                                 clause="raises:unlisted:" + mro[0], kind="raises")))
+                elif any(c is None for (_, c) in matched):
+                    pass
                 else:
                     goal = tm.or_(*[c for (_, c) in matched])
                     obligs.append(_ob(ex, "%s::raises:%s%s" % (base, mro[0], pid), s, goal, prop, mterms,
@@ -180,6 +184,17 @@ def verify_function(ex, con, prop=None):
             ob.meta.setdefault("file", con.file)
             ob.meta.setdefault("variant", variant)
             obligs.append(ob)
+        if hasattr(con, "aux_lemmas"):
+            aux = con.aux_lemmas(ex)
+            have = {o.name for o in obligs}
+            for l_ in aux:
+                l_.name = "%s::%s::aux:%s" % (con.file, con.qual, l_.name)
+                if l_.name not in have:
+                    l_.prop = prop
+                    obligs.append(l_)
+            for ob in obligs:
+                if ob.meta.get("needs_aux"):
+                    ob.meta.setdefault("uses", []).extend(l_.name for l_ in aux)
         info["paths"] += npath
         info["variants"].append(variant)
         if npath == 0:
